@@ -5,6 +5,7 @@ from ..shapes import Bounds
 from ..spec import specjson as sj, specmsg as sm
 from .c01 import bounds
 
+WARMUP = True  # a concrete first use of the harness before each path (vf/explore.py: WarmEnv)
 PROPERTY = "C04"
 
 
